@@ -14,6 +14,7 @@ F = 'src/field.rs'
 PRELUDE = '''
 #[derive(PartialEq, Eq)]
 pub enum FieldError { InputSizeMismatch, ShortRead, ModulusOverflow }
+impl Clone for FieldError { #[verifier::external_body] fn clone(&self) -> Self { unimplemented!() } }
 '''
 
 ZIP = (r'for \(x, y\) in a\.iter_mut\(\)\.zip\(b\) \{\s*\*x (\+=|-=) y;',
@@ -55,6 +56,65 @@ ensures
     old(accumulator)@.len() == other_vector@.len() ==> r is Ok
         && forall|i: int| 0 <= i < other_vector@.len() ==> #[trigger] final(accumulator)@[i] == fe_mk(fe_v(old(accumulator)@[i]) + fe_v(other_vector@[i])),
 ''')
+    # ---- AggregateShare<F>: sum / merge / accumulate (src/vdaf.rs) forward to merge_vector
+    u.raw('''
+pub enum VdafError { Uncategorized(String), Field(FieldError) }
+fn vdaf_error_from(e: FieldError) -> (r: VdafError) ensures r == VdafError::Field(e) { VdafError::Field(e) }
+pub struct AggregateShare(pub Vec<Fe>);
+pub struct OutputShare(pub Vec<Fe>);
+pub open spec fn sum_post(old_acc: Seq<Fe>, other: Seq<Fe>, new_acc: Seq<Fe>, r: Result<(), VdafError>) -> bool {
+    &&& new_acc.len() == old_acc.len()
+    &&& old_acc.len() != other.len() ==> r is Err && new_acc == old_acc
+    &&& old_acc.len() == other.len() ==> r is Ok && forall|i: int| 0 <= i < other.len() ==> #[trigger] new_acc[i] == fe_mk(fe_v(old_acc[i]) + fe_v(other[i]))
+}
+''', 'aggshare')
+    V = 'src/vdaf.rs'
+    AW = [(r'<F: FieldElement>', '', '*'), (r'other: &\[F\]', 'other: &Vec<Fe>', '*'),
+          (r'merge_vector\(&mut self\.0, other\)\.map_err\(Into::into\)', 'match merge_vector(&mut self.0, other) { Ok(()) => Ok(()), Err(e) => Err(vdaf_error_from(e)) }', '*'),   # map_err(Into::into) == match + From
+          (r'agg_share\.as_ref\(\)', '&agg_share.0', '*'), (r'output_share\.as_ref\(\)', '&output_share.0', '*'),
+          (r'&Self::OutputShare', '&OutputShare', '*'), (r'agg_share: &Self\b', 'agg_share: &AggregateShare', '*')]
+    u.item(V, ['impl<F: FieldElement> AggregateShare<F>', 'fn sum'], ret='r', impl_header='impl AggregateShare', rewrites=AW,
+           sig='ensures\n sum_post(old(self).0@, other@, final(self).0@, r),')
+    u.item(V, ['impl<F: FieldElement> Aggregatable for AggregateShare<F>', 'fn merge'], ret='r', impl_header='impl AggregateShare', rewrites=AW,
+           sig='ensures\n sum_post(old(self).0@, agg_share.0@, final(self).0@, r),')
+    u.item(V, ['impl<F: FieldElement> Aggregatable for AggregateShare<F>', 'fn accumulate'], ret='r', impl_header='impl AggregateShare', rewrites=AW,
+           sig='ensures\n sum_post(old(self).0@, output_share.0@, final(self).0@, r),')
+    # ---- Aggregator::aggregate (provided method): fold of accumulate from aggregate_init
+    u.raw('''
+pub struct AnyVdaf { _p: u8 }
+impl AnyVdaf {
+    // aggregate_init of the implementing VDAF: any vector (its length is the VDAF's output length)
+    pub uninterp spec fn init_spec(&self) -> Seq<Fe>;
+    #[verifier::external_body]
+    fn aggregate_init(&self, agg_param: &()) -> (r: AggregateShare) ensures r.0@ == self.init_spec() { unimplemented!() }
+}
+// element i of the accumulator after the first k output shares
+pub open spec fn acc_at(init: Seq<Fe>, shares: Seq<OutputShare>, i: int, k: int) -> Fe decreases k
+{ if k <= 0 { init[i] } else { fe_mk(fe_v(acc_at(init, shares, i, k - 1)) + fe_v(shares[k - 1].0@[i])) } }
+''', 'aggregate-spec')
+    u.item(V, ['pub trait Aggregator', 'fn aggregate'], ret='r', impl_header='impl AnyVdaf',
+           rewrites=[(r'<M: IntoIterator<Item = Self::OutputShare>>', '', 1), (r'agg_param: &Self::AggregationParam', 'agg_param: &()', 1),
+                     (r'output_shares: M', 'output_shares: &Vec<OutputShare>', 1), (r'Result<Self::AggregateShare, VdafError>', 'Result<AggregateShare, VdafError>', 1),
+                     # E4c'': iterating a sequence by value == index loop over it
+                     (r'for output_share in output_shares \{', 'for k_ in 0..output_shares.len() { let output_share = &output_shares[k_];', 1),
+                     (r'share\.accumulate\(&output_share\)\?;', 'match share.accumulate(output_share) { Ok(()) => {}, Err(e) => { return Err(e); } }', 1)],
+           sig='''
+ensures
+    // Ok exactly when every output share has the length of the initial aggregate share ...
+    r is Ok ==> forall|k: int| 0 <= k < output_shares@.len() ==> #[trigger] output_shares@[k].0@.len() == r->Ok_0.0@.len(),
+    // ... and then element i is the fold (in order) of the i-th elements over aggregate_init
+    r is Ok ==> r->Ok_0.0@.len() == self.init_spec().len() && forall|i: int| 0 <= i < self.init_spec().len() ==> #[trigger] r->Ok_0.0@[i] == acc_at(self.init_spec(), output_shares@, i, output_shares@.len() as int),
+    // any share of another length makes the whole aggregation fail
+    (exists|k: int| 0 <= k < output_shares@.len() && #[trigger] output_shares@[k].0@.len() != self.init_spec().len()) ==> r is Err,
+''',
+           ghost_before=[('for k_ in 0..', 'let ghost init0 = share.0@;')],
+           loops={0: '''
+invariant
+    share.0@.len() == init0.len(),
+    init0 == self.init_spec(),
+    forall|k: int| 0 <= k < k_ ==> #[trigger] output_shares@[k].0@.len() == init0.len(),
+    forall|i: int| 0 <= i < init0.len() ==> #[trigger] share.0@[i] == acc_at(init0, output_shares@, i, k_ as int),
+'''})
     u.raw('''
 fn witness(a: &mut Vec<Fe>, b: &Vec<Fe>) requires old(a)@.len() == 3, b@.len() == 3 {
     let r = merge_vector(a, b);
